@@ -1,0 +1,71 @@
+//go:build verif
+
+// Contracts (machine-checked by /verif/bin/govc).  Comment-only file.
+//
+// Decoder cursor invariant Inv(pd): byteOffset <= len(bytes), bitsOffset <= 7, and a partly
+// consumed octet exists (bitsOffset > 0 implies byteOffset < len(bytes)).
+// C14: under Inv alone (arbitrary input octets) every decoding primitive returns a value or an
+// error, never panics, keeps Inv, never moves the cursor backwards, and terminates.
+
+package aper
+
+// log formatting helpers (reflect-based): no effect on the verified state
+//@ func perBitLog
+//@ trusted
+//@ func perRawBitLog
+//@ trusted
+
+//@ func GetBitString
+//@ prop C14 C04
+//@ requires off: bitsOffset <= 7 && (bitsOffset == 0 || len(srcBytes) >= 1)
+//@ requires size: len(srcBytes) <= 1<<32 && numBits <= 1<<40
+//@ ensures err: (err != nil) == (uint64(numBits) > uint64(len(srcBytes))*8-uint64(bitsOffset))
+//@ ensures len: vc.Imp(err == nil, len(dstBytes) == int((numBits+7)>>3))
+//@ ensures bytes: vc.Imp(err == nil, vc.Forall(0, len(dstBytes), func(t int) bool { return dstBytes[t] == per.Extract(srcBytes, int(bitsOffset), int(numBits), t) }))
+//@ loop i invariant range (i int, byteLen uint, numBitsByteLen uint, dstBytes []byte): 1 <= i && (i <= int(byteLen) || byteLen == 0) && len(dstBytes) == int(numBitsByteLen)
+//@ loop i invariant done (i int, dstBytes []byte, srcBytes []byte, bitsOffset uint, numBitsByteLen uint): vc.Forall(0, i-1, func(t int) bool { return dstBytes[t] == srcBytes[t]<<bitsOffset|srcBytes[t+1]>>(8-bitsOffset) }) && vc.Forall(i-1, int(numBitsByteLen), func(t int) bool { return dstBytes[t] == 0 })
+//@ loop i decreases (i int, byteLen uint): int(byteLen) - i
+
+//@ func GetBitsValue
+//@ prop C14 C04
+//@ behavior small
+//@ requires off: bitsOffset <= 7 && (bitsOffset == 0 || len(srcBytes) >= 1)
+//@ requires size: len(srcBytes) <= 1<<32 && numBits <= 64
+//@ ensures err: (err != nil) == (uint64(numBits) > uint64(len(srcBytes))*8-uint64(bitsOffset))
+//@ ensures value: vc.Imp(err == nil, value == per.BitsValue(srcBytes, int(bitsOffset), int(numBits)))
+//@ loop i unroll 9
+//@ behavior total
+//@ requires off: bitsOffset <= 7 && (bitsOffset == 0 || len(srcBytes) >= 1)
+//@ requires size: len(srcBytes) <= 1<<32 && numBits <= 1<<40
+//@ ensures err: (err != nil) == (uint64(numBits) > uint64(len(srcBytes))*8-uint64(bitsOffset))
+//@ loop i invariant range (i int, j uint, numBits uint, dstBytes []byte): 0 <= i && j+uint(i)<<3 == numBits && uint(i) <= numBits>>3 && len(dstBytes) == int((numBits+7)>>3)
+//@ loop i decreases (i int, j uint): int(j)
+
+//@ func (*perBitData).bitCarry
+//@ prop C14
+//@ requires room: pd.byteOffset <= 1<<40 && pd.bitsOffset <= 1<<40
+//@ ensures carry: pd.byteOffset == old(pd.byteOffset)+uint64(old(pd.bitsOffset)>>3) && pd.bitsOffset == old(pd.bitsOffset)&7
+//@ assigns &pd.byteOffset, &pd.bitsOffset
+
+//@ func (*perBitData).getBitString
+//@ prop C14 C04
+//@ requires inv: vcInv(pd)
+//@ requires size: numBits <= 1<<40
+//@ ensures inv: vcInv(pd) && pd.byteOffset >= old(pd.byteOffset)
+//@ ensures err: (err != nil) == (uint64(numBits) > vcBitsLeft(old(pd.byteOffset), old(pd.bitsOffset), len(pd.bytes)))
+//@ ensures same: vc.Imp(err != nil, pd.byteOffset == old(pd.byteOffset) && pd.bitsOffset == old(pd.bitsOffset))
+//@ ensures adv: vc.Imp(err == nil, 8*pd.byteOffset+uint64(pd.bitsOffset) == 8*old(pd.byteOffset)+uint64(old(pd.bitsOffset))+uint64(numBits))
+//@ ensures len: vc.Imp(err == nil, len(dstBytes) == int((numBits+7)>>3))
+//@ ensures bytes: vc.Imp(err == nil, vc.Forall(0, len(dstBytes), func(t int) bool { return dstBytes[t] == per.Extract(pd.bytes[old(pd.byteOffset):], int(old(pd.bitsOffset)), int(numBits), t) }))
+//@ assigns &pd.byteOffset, &pd.bitsOffset
+
+//@ func (*perBitData).getBitsValue
+//@ prop C14 C04
+//@ requires inv: vcInv(pd)
+//@ requires size: numBits <= 1<<40
+//@ ensures inv: vcInv(pd) && pd.byteOffset >= old(pd.byteOffset)
+//@ ensures err: (err != nil) == (uint64(numBits) > vcBitsLeft(old(pd.byteOffset), old(pd.bitsOffset), len(pd.bytes)))
+//@ ensures same: vc.Imp(err != nil, pd.byteOffset == old(pd.byteOffset) && pd.bitsOffset == old(pd.bitsOffset))
+//@ ensures adv: vc.Imp(err == nil, 8*pd.byteOffset+uint64(pd.bitsOffset) == 8*old(pd.byteOffset)+uint64(old(pd.bitsOffset))+uint64(numBits))
+//@ ensures value: vc.Imp(err == nil && numBits <= 64, value == per.BitsValue(pd.bytes[old(pd.byteOffset):], int(old(pd.bitsOffset)), int(numBits)))
+//@ assigns &pd.byteOffset, &pd.bitsOffset
